@@ -122,6 +122,13 @@ func checkStream(stream []byte) (signature.SignatureDatabase, []esl.List, error)
 	if b := db.Bytes(); !bytes.Equal(b, stream) {
 		return nil, nil, fmt.Errorf("Bytes() of the decoded database does not reproduce the input: %d bytes in, %d bytes out", len(stream), len(b))
 	}
+	// the merge route: the decoded database appended to an empty one is the same database, so it encodes to the same
+	// stream (lists without entries, which keep their size field, included) and that stream decodes again
+	var merged signature.SignatureDatabase
+	merged.AppendDatabase(&db)
+	if b := merged.Bytes(); !bytes.Equal(b, stream) {
+		return nil, nil, fmt.Errorf("an empty database with the decoded database appended (AppendDatabase) encodes to %d bytes, the decoded database to %d; equal prefix %d", len(b), len(stream), commonPrefixLen(b, stream))
+	}
 	var mb bytes.Buffer
 	db.Marshal(&mb)
 	if !bytes.Equal(mb.Bytes(), stream) {
@@ -252,6 +259,14 @@ func checkStream(stream []byte) (signature.SignatureDatabase, []esl.List, error)
 		}
 	}
 	return db, want, nil
+}
+
+func commonPrefixLen(a, b []byte) int {
+	n := 0
+	for n < len(a) && n < len(b) && a[n] == b[n] {
+		n++
+	}
+	return n
 }
 
 func checkCase(c Case) error {
